@@ -109,10 +109,20 @@ def transform_for(tkind, geographic):
         return Affine(4.5e-6, 1.1e-10, rx0, 0.0, -4.5e-6, ry0), False
     if tkind == "near-aligned-in":  # just inside that window
         return Affine(4.5e-6, 0.9e-10, rx0, 0.0, -4.5e-6, ry0), False
+    # the window as documented now: shear/rotation terms up to 1e-10 of the pixel size count as axis aligned
+    if tkind == "near-aligned-rel-out":
+        return Affine(4.5e-6, 1.1 * ALIGN_TOL * 4.5e-6, rx0, -1.1 * ALIGN_TOL * 4.5e-6, -4.5e-6, ry0), False
+    if tkind == "near-aligned-rel-in":
+        return Affine(4.5e-6, 0.9 * ALIGN_TOL * 4.5e-6, rx0, -0.9 * ALIGN_TOL * 4.5e-6, -4.5e-6, ry0), False
+    if tkind == "near-aligned-rel-out-10m":
+        return Affine(s, 1.1 * ALIGN_TOL * s, x0, 0.0, -s, y0), False
+    if tkind == "near-aligned-rel-in-10m":
+        return Affine(s, 0.9 * ALIGN_TOL * s, x0, 0.0, -s, y0), False
     raise ValueError(tkind)
 
 
 FIRST = ("SYX", "TYX")
+ALIGN_TOL = 1e-10  # documented in odc.geo.math.is_affine_st: |shear| <= 1e-10 * pixel size counts as "pure scale and translation"
 
 
 def tclass(tkind):
@@ -120,6 +130,8 @@ def tclass(tkind):
         return "north-up"
     if tkind in ("rot", "shear"):
         return "non-aligned"
+    if tkind.startswith("near-aligned"):
+        return "near-aligned-" + ("inside" if "-in" in tkind else "outside") + ("-relative-window" if "-rel-" in tkind else "-1e-10-absolute")
     return tkind
 
 
@@ -238,7 +250,7 @@ def bands_of(data, layout):
 
 
 LAEA = "+proj=laea +lat_0=10 +lon_0=20 +datum=WGS84 +units=m +no_defs"  # a CRS without an EPSG code
-CRS_SPECS = ("str", "int", "lower", "wkt", "json", "pyproj", "odc", "laea")
+CRS_SPECS = ("str", "int", "lower", "wkt", "json", "pyproj", "odc", "laea", "nocrs")
 
 
 def crs_spec(crs, spec):
@@ -263,6 +275,8 @@ def crs_spec(crs, spec):
         return OCRS(crs_str), epsg
     if spec == "laea":
         return LAEA, LAEA
+    if spec == "nocrs":
+        return None, None
     raise ValueError(spec)
 
 
@@ -281,7 +295,7 @@ def build(yx, layout, dtype, tkind="nu", crs="32633", ndkind="none", nd_src="att
           spec="str", nd_enc="py"):
     """-> (DataArray, raw data, transform, exact, expected CRS (EPSG code or proj string), wanted nodata, writer kwargs)"""
     crs_val, epsg = crs_spec(crs, spec)
-    A, exact = transform_for(tkind, CRSS[crs][2] and spec != "laea")
+    A, exact = transform_for(tkind, CRSS[crs][2] and spec not in ("laea", "nocrs"))
     gbox = GeoBox(tuple(yx), A, crs_val)
     nodata = nodata_for(dtype, ndkind)
     data = make_data(layout_shape(yx, layout), dtype, off, nodata)
@@ -374,7 +388,8 @@ def open_tiff(blob):
 
 def transform_matches(got, want, exact, shape):
     """D alphabet: ==. R alphabet: the four image corners must land within 16 ulp of the largest corner coordinate plus
-    1e-9 of the smaller pixel side (binary64 rounding of the coordinate labels, nothing that scales with the magnitude)."""
+    1e-9 of the smaller pixel side (binary64 rounding of the coordinate labels, nothing that scales with the magnitude) plus
+    the library's documented axis-alignment tolerance accumulated over the raster (1e-10 pixel per pixel)."""
     g, w = Affine(*tuple(got)[:6]), Affine(*tuple(want)[:6])
     if exact:
         return tuple(g)[:6] == tuple(w)[:6], 0.0
@@ -386,7 +401,7 @@ def transform_matches(got, want, exact, shape):
         wx, wy = w * (x, y)
         worst = max(worst, abs(gx - wx), abs(gy - wy))
         cmax = max(cmax, abs(wx), abs(wy))
-    return worst <= 16 * math.ulp(cmax) + 1e-9 * pix, worst / pix
+    return worst <= 16 * math.ulp(cmax) + (1e-9 + ALIGN_TOL * max(H, W)) * pix, worst / pix
 
 
 def same_nodata(got, want):
@@ -430,8 +445,11 @@ def inspect(blob, want_bands, A, exact, epsg, nodata, levels, blocksize, r: R, w
         if not t_ok:
             r.fail(f"georef:transform:{cls['geo']}",
                    f"{what}: file transform {tuple(src.transform)[:6]}, GeoBox transform {tuple(A)[:6]}"
-                   f" ({'exact comparison' if exact else 'image corners displaced by %.3g px; 16 ulp + 1e-9 px allowed' % t_px})")
-        if isinstance(epsg, int):
+                   f" ({'exact comparison' if exact else 'image corners displaced by %.3g px; 16 ulp + (1e-9 + 1e-10*size) px allowed' % t_px})")
+        if epsg is None:
+            if src.crs is not None:
+                r.fail(f"georef:crs:{cls['crs']}", f"{what}: the array has no CRS, the file says {src.crs}")
+        elif isinstance(epsg, int):
             if src.crs is None or src.crs.to_epsg() != epsg:
                 r.fail(f"georef:crs:{cls['crs']}", f"{what}: file CRS {src.crs}, expected EPSG:{epsg}")
         elif src.crs is None or src.crs != rasterio.crs.CRS.from_string(epsg):  # GDAL's own OSRIsSame on a fresh object
@@ -612,7 +630,7 @@ def run_write(r: R, what, xx, data, layout, A, exact, epsg, nd_want, *, dest, ap
     ext_b = None
     if ext is not None:
         levels = [bands_of(o.data, layout).shape[1:] for o in ext]
-        ext_b = [bands_of(o.data, layout).copy() for o in ext]
+        ext_b = [np.array(bands_of(o.data, layout)) for o in ext]
     else:
         levels = expected_levels(yx, ovl)
         if ovl is not None:  # None: argument not given, the documented default applies
@@ -649,7 +667,7 @@ def run_write(r: R, what, xx, data, layout, A, exact, epsg, nd_want, *, dest, ap
                 r.outcome += f":refused-{type(e).__name__}"
                 refused = True
             state_after = gdal_state()
-        judge_side_effects(r, what, cls["pix"], inputs, before, kw, kw_before, state_before, state_after)
+        judge_side_effects(r, what, cls["pix"].split(":")[1], inputs, before, kw, kw_before, state_before, state_after)
         if refused:
             return False
         # judged outside the ambient configuration: the readers run in GDAL's default environment
@@ -697,10 +715,12 @@ def gen_s1(tier):
     shapes = S1_SHAPES + (S1_MORE if tier == "thorough" else ())
     layouts = S1_LAYOUTS + ((("SYX", 6), ("SYX", 7), ("YXS", 6), ("YXS", 7), ("TYX", 2), ("TYX", 5)) if tier == "thorough" else ())
 
+    tks = TKINDS if tier == "thorough" else ("nu", "rot")  # the other transforms x shapes x routes: s12
+
     def g():
         for yx in shapes:
             for layout in layouts:
-                for tk in TKINDS:
+                for tk in tks:
                     for crs in CRSS:
                         for two_pass in (False, True):
                             if two_pass and max(yx) < 2:
@@ -733,7 +753,7 @@ def gen_s2(tier):
                 for nd_src in (("attr",) if ndk == "none" else ("attr", "kwarg", "both")):
                     for ovl in ((), (2, 4)):
                         for dest in ("mem", "file"):
-                            for comp in ("default", "zstd", "lzw"):
+                            for comp in (("default", "zstd", "lzw") if tier == "thorough" else ("default", "zstd")):
                                 for yx, layout in (((17, 31), "YX"), ((9, 20), ("SYX", 2)), ((12, 7), ("YXS", 3))):
                                     yield ("s2", dtype, ndk, nd_src, ovl, dest, comp, yx, layout)
 
@@ -818,7 +838,7 @@ def gen_s4(tier):
                 for n_ovr in (0, 1, 2):
                     for dtype in dts:
                         for ndk in ("none", "special"):
-                            for tk in ("nu", "rot"):
+                            for tk in (("nu", "rot") if tier == "thorough" else ("rot",)):  # north-up + supplied layers: s6b, s8, s10
                                 for api in ("write_cog", "write_cog_layers"):
                                     for dest in ("mem", "file"):
                                         yield ("s4", yx, layout, n_ovr, dtype, ndk, tk, api, dest)
@@ -1059,7 +1079,7 @@ S8_SHAPES = ((17, 31), (33, 50), (520, 600))
 def gen_s8(tier):
     def g():
         for amb in AMBIENT:
-            for yx in S8_SHAPES:
+            for yx in (S8_SHAPES if tier == "thorough" else S8_SHAPES[::2]):
                 for layout in S3_LAYOUTS:
                     for windowed in (False, True):
                         for dest in ("mem", "file"):
@@ -1309,7 +1329,7 @@ def run_s9(case):
             o_before = snap_kw(o)
             state0 = gdal_state()
             got = fn(o)
-            judge_side_effects(r, f"{case} via {ename}", f"{ename}:option-{name}", inputs, before, o, o_before, state0, gdal_state())
+            judge_side_effects(r, f"{case} via {ename}", ename, inputs, before, o, o_before, state0, gdal_state())
             if gdal_state() != BASE_STATE:
                 scrub_gdal()
             if not isinstance(got, bytes):
@@ -1458,7 +1478,8 @@ def run_s11(case):
 # s12: orientations / pixel-size extremes / origins / near-aligned transforms x CRS encodings x long and tiny rasters
 # ---------------------------------------------------------------------------------------------------------
 S12_TKINDS = ("nu", "nu-r", "rot", "shear", "south-up", "mirror-x", "rot180", "nonsquare", "tiny", "huge", "halfpx", "near-int",
-              "offgrid", "scale-below-1", "rot0.05", "shear9e-4", "near-aligned-out", "near-aligned-in")
+              "offgrid", "scale-below-1", "rot0.05", "shear9e-4", "near-aligned-out", "near-aligned-in", "near-aligned-rel-out",
+              "near-aligned-rel-in", "near-aligned-rel-out-10m", "near-aligned-rel-in-10m")
 S12_PENDING = ()
 S12_SHAPES = ((1, 1), (1, 4), (4, 1), (17, 31), (2, 2000), (2000, 2))
 S12_ROUTES = ("1pass", "2pass", "layers")
@@ -1505,8 +1526,9 @@ def run_s12(case):
     cls = mkcls(yx, layout, tk, crs, "uint8", "special", "attr", route, "write_cog", 16, ovl)
     cls["geo"] = f"{tclass(tk)}:{shape_class(yx)}{'-long' if max(yx) > 64 else ''}:{route}"
     cls["crs"] = f"{crs}:given-as-{spec}:{route}"
+    # "geo_im: xarray.DataArray with crs": an array without CRS may be refused; when it is written the file must not claim one
     run_write(r, str(case), xx, data, layout, A, exact, epsg, nodata, dest="mem", ext=ext, ovl=None if ext is not None else ovl,
-              blocksize=16, cls=cls, **kw)
+              blocksize=16, cls=cls, may_refuse=REFUSALS + (rasterio.errors.CRSError, AttributeError) if spec == "nocrs" else (), **kw)
     return r
 
 
@@ -1546,7 +1568,7 @@ def run_s13(case):
 # ---------------------------------------------------------------------------------------------------------
 # s14: block sizes: zero, tiny, not multiples of 16, far larger than the image, other number types
 # ---------------------------------------------------------------------------------------------------------
-S14_BLOCKS = {"0": 0, "1": 1, "15": 15, "17": 17, "31": 31, "250": 250, "1000": 1000, "4096": 4096, "np.int64(32)": np.int64(32),
+S14_BLOCKS = {"0": 0, "1": 1, "15": 15, "17": 17, "31": 31, "250": 250, "1000": 1000, "np.int64(32)": np.int64(32),
               "np.int32(100)": np.int32(100), "16.0": 16.0}
 
 
@@ -1607,6 +1629,64 @@ def run_s15(case):
     cls = mkcls(yx, layout, "nu", "32633", dtype, ndk, "attr", f"{route}:{dest}", "write_cog", 16, ovl)
     run_write(r, str(case), xx, data, layout, A, exact, epsg, nodata, dest=dest, ext=ext, ovl=None if ext is not None else ovl,
               blocksize=16, cls=cls, may_refuse=REFUSALS, **kw)
+    return r
+
+
+# ---------------------------------------------------------------------------------------------------------
+# s16: the same pixels in another memory representation
+# ---------------------------------------------------------------------------------------------------------
+S16_MEM = ("C", "F", "strided", "negative-stride", "readonly", "dask")
+
+
+def as_memory(data, mem):
+    if mem == "C":
+        return np.ascontiguousarray(data)
+    if mem == "F":
+        return np.asfortranarray(data)
+    if mem == "strided":
+        big = np.zeros(tuple(2 * n for n in data.shape), dtype=data.dtype)
+        view = big[tuple(slice(None, None, 2) for _ in data.shape)]
+        view[...] = data
+        return view
+    if mem == "negative-stride":
+        return data[..., ::-1].copy()[..., ::-1]
+    if mem == "readonly":
+        out = data.copy()
+        out.flags.writeable = False
+        return out
+    if mem == "dask":
+        import dask.array as da  # pylint: disable=import-outside-toplevel
+
+        return da.from_array(data.copy(), chunks=tuple(max(1, -(-n // 2)) for n in data.shape))
+    raise ValueError(mem)
+
+
+def gen_s16(tier):
+    def g():
+        for mem in S16_MEM:
+            for layout in S3_LAYOUTS:
+                for route in ("1pass", "2pass", "layers"):
+                    for windowed in (False, True):
+                        for dest in ("mem", "file"):
+                            yield ("s16", mem, layout, route, windowed, dest)
+
+    return g
+
+
+def run_s16(case):
+    _, mem, layout, route, windowed, dest = case
+    r = R(outcome=f"s16:{mem}:{lk(layout)}:{route}:win{int(windowed)}:{dest}")
+    yx = (33, 50)
+    xx, data, A, exact, epsg, nodata, kw = build(yx, layout, "int16", "nu", "32633", "special", zeros=True)
+    xx = xx.copy(data=as_memory(data, mem))
+    ext = None
+    if route == "layers":
+        ext = [o.copy(data=as_memory(np.asarray(o.data), mem)) for o in sub_overviews(xx, layout, "int16", 2, zeros=True)]
+    ovl = "ext" if ext is not None else ((2, 4) if route == "2pass" else ())
+    cls = mkcls(yx, layout, "nu", "32633", "int16", "special", "attr", f"{route}:{dest}", "write_cog", 16, ovl)
+    cls["pix"] += f":win{int(windowed)}:memory-{mem}"
+    run_write(r, str(case), xx, data, layout, A, exact, epsg, nodata, dest=dest, ext=ext, ovl=None if ext is not None else ovl,
+              blocksize=16, cls=cls, use_windowed_writes=windowed, may_refuse=REFUSALS if mem == "dask" else (), **kw)
     return r
 
 
@@ -1718,9 +1798,12 @@ def slices(tier):
         e1.Slice("s13-oversized-levels", gen_s13(tier), run_s13,
                  "overview levels up to far beyond the image x tiny and strip-like shapes x layout x destination", shards=32),
         e1.Slice("s14-blocksizes", gen_s14(tier), run_s14,
-                 "blocksize {0, 1, 15, 17, 31, 250, 1000, 4096, numpy ints, float} x shapes x overviews x layout x windowed x destination"),
+                 "blocksize {0, 1, 15, 17, 31, 250, 1000, numpy ints, float} x shapes x overviews x layout x windowed x destination"),
         e1.Slice("s15-dtypes-extra", gen_s15(tier), run_s15,
                  "uint32 / int64 / uint64 / float16 / complex / bool x nodata x route x layout x destination (refusal allowed)", shards=32),
+        e1.Slice("s16-memory-layout", gen_s16(tier), run_s16,
+                 "pixels held C / Fortran ordered, strided, negative strides, read-only, dask-backed (refusal allowed) x layouts x route "
+                 "x windowed x destination", shards=32),
         e1.Slice("s7-helpers", gen_s7(tier), run_s7,
                  "adjust_blocksize on [1,600]x[0,600], norm_blocksize on [1,130]^2, yaxis_from_shape on shapes x layouts", shards=32),
     ]
@@ -1728,12 +1811,17 @@ def slices(tier):
 
 def main(ctx):
     ctx.rule = (
-        "each slice is a complete product (overview requests restricted to min(shape) >= largest factor); every case writes "
+        "each slice is a complete product or a union of complete products; every case writes "
         "through write_cog / to_cog / write_cog_layers (function or .odc accessor) to memory or to a fresh temporary directory "
         "and is judged by an independent rasterio/GDAL decode (pixels, dtype, band count/order, transform, CRS, nodata) and a "
         "tifffile walk of the IFDs (tiled, tile sizes multiples of 16, one reduced IFD of size ceil(size/factor) per requested "
         "level, none by default under 512 px, defaults [2,4,8,16,32] from 512 px); existing destination: overwrite False/default "
-        "=> IOError and byte-identical file, True => replaced; non-trivial = every case that writes and decodes a file"
+        "=> IOError and byte-identical file, True => replaced. Clauses judged on EVERY call of every slice: the caller's arrays "
+        "(values, attrs, encoding, coordinates) and option containers are unchanged; every GDAL option the writers set "
+        "(GDAL_DISABLE_READDIR_ON_OPEN, GDAL_TIFF_OVR_BLOCKSIZE, GDAL_NUM_THREADS, NUM_THREADS) is back to the caller's value. "
+        "s9: identical arguments through every entry point, on one instance in sequence, must give the file a single write_cog of a "
+        "fresh array gives (bytes, else decoded pixels of all levels + georeferencing + IFD structure). "
+        "non-trivial = every case that writes and decodes a file"
     )
     ctx.bounds = dict(
         s1_shapes=S1_SHAPES, layouts=[lk(x) for x in S1_LAYOUTS], transforms=TKINDS, crs=list(CRSS), dtypes=DTYPES,
@@ -1742,22 +1830,43 @@ def main(ctx):
         intermediate_compression=list(INTERMEDIATE), ovr_blocksize=[None, 64, 256], external_overviews=[0, 1, 2],
         ambient_gdal_config={READDIR: list(AMBIENT)}, s8_shapes=S8_SHAPES,
         s6_shapes=S6_SHAPES, s6b_shapes=S6B_SHAPES, s6_overview_levels=[None, [], [2]],
-        data_patterns=["ramp (s1, s2, s4, s5)", "ramp with an all-zero 16*2^k corner in every band + scattered valid zeros "
-                       "(s3, s4b, s6, s6b: the slices that vary windowed writes)"], max_image_side_outside_s6=64, helper_domain=S7_N,
+        data_patterns=["ramp (s1, s2, s4)", "ramp with an all-zero 16*2^k corner in every band + scattered valid zeros "
+                       "(s3, s4b, s5, s6, s6b, s8*, s9, s11, s14, s16)", "all nodata / isolated + whole-tile nodata + NaN (s10)"],
+        s9_options=list(S9_OPTS), s9_entry_points=["write_cog(':mem:')", "to_cog", "to_cog positional", ".odc.to_cog",
+                                                   ".odc.write_cog(':mem:')", "write_cog(file)", ".odc.write_cog(Path)",
+                                                   "write_cog_layers (default dst, ':mem:', file)", "write_cog(':mem:') again"],
+        s10_routes=S10_ROUTES, nodata_encodings=["python", "numpy scalar", "float"], s12_transforms=S12_TKINDS, crs_encodings=CRS_SPECS,
+        s12_shapes=S12_SHAPES, s13_shapes=S13_SHAPES, s13_levels=S13_LEVELS, s14_blocksizes=list(S14_BLOCKS), s15_dtypes=S15_DTYPES,
+        s16_memory=S16_MEM, caller_gdal_options=[str(x) for x in S8B_SPECS], max_image_side_outside_s6=64, helper_domain=S7_N,
     )
     ctx.assumptions = [
         "rasterio/GDAL (opened on the result, independent of the writing handles) and tifffile are trusted decoders",
         "the band layout of a DataArray is given by its dimension names; write_cog documents no shape-based restriction, so a "
         "band-first cube (band, y, x) with n == ny == nx is inside the domain ('every supported shape, band layout')",
-        "transforms with dyadic coefficients are compared with ==, the others (1/3 m, 0.1 deg, 30 deg rotation) within "
-        "1e-9*(|value| + pixel)",
+        "transforms with dyadic coefficients are compared with ==; the others by the displacement of the four image corners, which "
+        "must stay within 16 ulp of the largest corner coordinate + 1e-9 pixel + 1e-10 pixel per pixel of raster size (the library "
+        "documents in is_affine_st that shear/rotation terms up to 1e-10 of the pixel size count as axis aligned)",
+        "a CRS given as a WKT whose parameters were edited while its trailing ID[\"EPSG\",n] was left in place is self-contradictory "
+        "and not judged: OBSERVATION - the writer hands str(crs) (the WKT) to GDAL, whose GeoTIFF encoder trusts the ID node, so the "
+        "file reads back as plain EPSG:n (checked for UTM 33N with the central meridian moved to 16 deg)",
+        "inputs the statement does not call supported may be refused with an exception (outcome label 'refused-*'), but when they "
+        "are written every clause applies: dtypes outside the uint8..float64 menu (uint32/int64/uint64/float16/complex64 are "
+        "written and read back identical; bool and complex128 are refused by rasterio/GDAL), blocksize=0, dask-backed arrays, an "
+        "overview request that GDAL refuses because more than one level would be 1x1, arrays without CRS (OBSERVATION: "
+        "write_cog_layers raises AttributeError instead of the ValueError write_cog raises when there is no GeoBox at all)",
+        "'ovr_blocksize: Size of internal tiles in overview images (defaults to blocksize)' is demanded where GDAL takes the value as "
+        "it is (a power of two in [64, 4096]); for other values GDAL silently uses its own default (128) and only the multiple-of-16 "
+        "clause applies",
+        "overview levels larger than the image give levels of size ceil(size/factor) >= 1",
+        "mixed dtypes between the image and supplied overviews, 4-D arrays and overview_levels given as numpy arrays are not enumerated",
         "'blocksize: Size of internal tiff tiles' is demanded of the full-resolution IFD only where unambiguous (multiple of "
         "16, not larger than the image side); overview IFDs only need tile sizes that are multiples of 16",
         "images with exactly one side under 512 px may have either no overviews or the default levels (the statement does not "
         "decide which side counts)",
-        "the ambient GDAL configuration is varied only in s8 and only for GDAL_DISABLE_READDIR_ON_OPEN (set through an outer "
-        "rasterio.Env around the write; asserted in force inside and absent outside); every other slice runs with GDAL defaults "
-        "(the variable is removed from os.environ at import)",
+        "the ambient GDAL configuration is varied in s8 (GDAL_DISABLE_READDIR_ON_OPEN, outer rasterio.Env) and s8b (each option the "
+        "writers set, through an outer rasterio.Env or the process environment); asserted in force inside and absent outside; every "
+        "other slice runs with the configuration the worker started with (GDAL_DISABLE_READDIR_ON_OPEN is removed from os.environ "
+        "at import)",
         "content of computed overviews is not compared (the property constrains their number and size); supplied overviews must be "
         "stored as given",
     ]
